@@ -54,10 +54,14 @@ CHECKS = {
         text='Proof of the frame of the text kernel: every structured edit changes text only through _put_src, and '
              '_put_src is proved (for all line lists, rectangles and put lines) to leave every line before the span '
              'and after it untouched and in order, to keep the prefix of the first and the suffix of the last touched '
-             'line, and to change the line count by exactly the difference. Which rectangle a handler chooses (the '
+             'line, and to change the line count by exactly the difference; the re-indentation kernel (_indent_lns / '
+             '_dedent_lns / _redent_lns, loop invariants) changes only lines of the given set and only their leading '
+             'blanks. Which rectangle a handler chooses (the '
              'element, its separator, the trivia the option selects) is bounded: token-level frame check - '
              'identifiers, literals and comments outside the element unchanged and in order, with trivia=() and the '
-             'default - over statement and expression nodes of the corpus x {remove, 4 donors, own copy}.',
+             'default - over statement and expression nodes of the corpus x {remove, 4 donors, own copy, two-line slice}; '
+             'leading_trivia exhaustively over every string of <= 5 (thorough 7) lines of line classes {blank, comment, '
+             'continuation, code} x every mode x space setting: never selects a code line, respects mode and limit.',
         note=TB + BND + ' Undecided remainder: trivia selection and separator repair (bounded only).',
         technique='contract-based deductive verification of the splice frame (z3, ropes/piecewise lists) + bounded '
                   'token-level frame contracts on the public API',
